@@ -110,6 +110,18 @@ func (c *cloner) clone(v reflect.Value) reflect.Value {
 			d.SetMapIndex(it.Key(), c.clone(it.Value()))
 		}
 		return d
+	case reflect.Chan:
+		if v.IsNil() || v.Type().ChanDir() != reflect.BothDir {
+			return v
+		}
+		// a template is never in use: its channels are empty; the copy gets channels of its own
+		key := v.UnsafePointer()
+		if d, ok := c.seen[key]; ok {
+			return d
+		}
+		d := reflect.MakeChan(v.Type(), v.Cap())
+		c.seen[key] = d
+		return d
 	case reflect.Interface:
 		if v.IsNil() {
 			return v
